@@ -35,9 +35,12 @@ KNOWN_LINEAR = "C22:linear-form-mixedelement-returns-kxk-duplicated-rows"
 
 def universes(tier):
     q = tier == "quick"
-    f, W2 = ("f", ()), ("W", (2,))
+    f, W2, W3, G = ("f", ()), ("W", (2,)), ("W", (3,)), ("G", (2, 2))
     EB = ("extract_blocks",)
     noacts = ("two", "w_u", "w_v", "w_u0", "w_u1", "w_u2", "w_v0", "w_v1", "w_v2")
+    T = (2, 2)  # with kind "sym": symmetric tensor sub-element, physical value size 4, reference value size 3
+    # the rows of a matrix valued piece of split, and the flat components (of sub-element 0) that stay usable
+    symrows = ("v_0r0", "v_0r1", "u_0r0", "u_0r1")
     deep_ops = {"add", "sub", "mul", "div", "neg", "inner", "dot", "index", "conj", "list"}
     out = [
         # MixedElement, 2 sub-elements (scalar, vector), same space on both sides
@@ -50,6 +53,32 @@ def universes(tier):
         Uni("ms2", "space", [(), (2,)], [(), (2,)], [f, W2], {"add", "mul", "inner", "index"}, 2, EB, exclude=noacts),
         Uni("ms-rect", "space", [(), (2,)], [(2,), (), ()], [f], {"add", "mul", "index"}, 2, EB, keypairs=[(1, 2)], exclude=noacts),
     ]
+    # sub-elements whose reference value size differs from their physical value size, not in the last position
+    # (the offsets of the later sub-functions in the flattened argument count physical components):
+    # symmetric tensor first, same space on both sides (exhaustive)
+    out.append(Uni("me-sym", "element", [T, ()], [T, ()], [f, G], {"add", "mul", "inner"}, 2, EB, vkinds=["sym", "P"], ukinds=["sym", "P"],
+                   exclude=noacts + symrows + ("v", "u", "v[0]", "v[2]", "v[3]", "u[0]", "u[1]", "u[3]")))
+    if q:
+        out += [
+            # symmetric tensor in the middle / first, different spaces on the two sides (3 x 2), sampled
+            Uni("sample-me-sym", "element", [(), T, (2,)], [T, ()], [f, W2, G], deep_ops, 0, EB, keypairs=[(1, 2)], vkinds=["P", "sym", "P"], ukinds=["sym", "P"], exclude=noacts, simulate=300, depth=4),
+            # covariant Piola mapped vector sub-element (reference (2,), physical (3,)) first, triangle mesh immersed in 3D
+            Uni("sample-me-curl", "element", [(3,), (), (3,)], [(3,), ()], [f, W3], deep_ops, 0, EB, keypairs=[(1, 2)], vkinds=["curl", "P", "P"], ukinds=["curl", "P"], gdim=3, exclude=noacts, simulate=200, depth=4),
+        ]
+    else:
+        out += [
+            # symmetric tensor in the middle of 3; linear and bilinear forms with an ordinary trial space
+            Uni("me-sym3", "element", [(), T, ()], [(), T, ()], [f, G], {"add", "mul", "inner"}, 2, EB, vkinds=["P", "sym", "P"], ukinds=["P", "sym", "P"],
+                exclude=noacts + ("v_1r0", "v_1r1", "u_1r0", "u_1r1", "v", "u", "v[1]", "v[3]", "v[4]", "u[1]", "u[2]", "u[4]")),
+            Uni("me-sym-plain", "element", [T, ()], [()], [f, G], {"add", "mul", "inner"}, 2, EB, vkinds=["sym", "P"], uplain=True,
+                exclude=noacts + symrows + ("v", "v[0]", "v[3]")),
+            # Piola mapped vector sub-element first / in the middle, immersed mesh
+            Uni("me-curl", "element", [(3,), ()], [(3,), ()], [f, W3], {"add", "mul", "inner"}, 2, EB, vkinds=["curl", "P"], ukinds=["curl", "P"], gdim=3,
+                exclude=noacts + ("v", "u", "v[0]", "v[2]", "u[0]", "u[1]")),
+            Uni("deep-me-sym", "element", [T, (2,), ()], [T, (2,), ()], [f, W2, G], deep_ops, 0, EB, keypairs=[(1, 2), (3, 4)], vkinds=["sym", "P", "P"], ukinds=["sym", "P", "P"], exclude=noacts, simulate=3000, depth=6),
+            Uni("deep-me-sym-rect", "element", [(), T, (2,)], [T, T, ()], [f, W2, G], deep_ops, 0, EB, keypairs=[(1, 2)], vkinds=["P", "sym", "P"], ukinds=["sym", "sym", "P"], exclude=noacts, simulate=2500, depth=5),
+            Uni("deep-me-curl", "element", [(3,), (), (3,)], [(), (3,), (3,)], [f, W3], deep_ops, 0, EB, keypairs=[(1, 2)], vkinds=["curl", "P", "P"], ukinds=["P", "curl", "curl"], gdim=3, exclude=noacts, simulate=2500, depth=5),
+        ]
     if q:
         # 3 sub-spaces, two integrals, deeper terms: sampled programs, purely bilinear / linear by
         # construction (drawn here with ctx.seed, validated and predicted by TLC)
@@ -97,14 +126,20 @@ def part_slots(w, num, p):
 def block_slots(w, i, j, replaced=True):
     """Slots of the arguments block (i, j) is allowed to contain, and the map local slot -> global
     slot.  MixedElement with replace_argument: new Arguments on the sub-element spaces;
-    otherwise (MixedFunctionSpace, or replace_argument=False): the original arguments, rows /
-    columns of the other sub-spaces excluded."""
+    MixedFunctionSpace: the original arguments of sub-spaces (i, j) (every other argument is
+    foreign); MixedElement with replace_argument=False: the original (flattened) arguments with
+    ALL their components, so that a dependence on a component of another sub-function is
+    observed."""
     import ufl
 
     uni = w.uni
     gi = part_slots(w, 0, i)
     gj = part_slots(w, 1, j) if j is not None else []
-    if uni.mixed == "element" and replaced:
+    if uni.mixed == "element" and not replaced:
+        gi = list(range(1, uni.nv + 1))
+        gj = list(range(1, uni.nu + 1)) if j is not None else []
+        return Slots(w.vslots, w.uslots if j is not None else []), gi, gj
+    if uni.mixed == "element":
         rows = [(ufl.Argument(w.subspaces[0][i], 0, None), c) for c in base.comps(uni.vsub[i])]
         if j is None:
             cols = []
@@ -133,6 +168,67 @@ def restrict(Freal, gi, gj, nr, nc):
     """the restriction of the assembled input to rows gi / columns gj (other slots -> zero vector)"""
     si, sj = set(gi), set(gj)
     return {k: [[[g[i if i in si else 0][j if j in sj else 0] for j in range(nc + 1)] for i in range(nr + 1)] for g in t] for k, t in Freal.items()}
+
+
+def sym_pairs(uni):
+    """per side, the pairs of (1-based) slots that carry the components (0, 1) / (1, 0) of a symmetric
+    tensor sub-function"""
+    out = []
+    for subs, kinds in ((uni.vsub, uni.vkinds), (uni.usub or [], uni.ukinds)):
+        pairs, off = [], 0
+        for sh, k in zip(subs, kinds):
+            if k == "sym":
+                pairs.append((off + 2, off + 3))  # flat components 1 = (0, 1) and 2 = (1, 0)
+            off += Uni._size(sh)
+        out.append(pairs)
+    return out
+
+
+def _plus(x, y, z):
+    return None if x is None or y is None or z is None else x + y - z
+
+
+def on_symmetric_values(tabs, uni):
+    """The values of a symmetric tensor sub-function are symmetric: instead of the unit tensors
+    E01 and E10 the tables are compared at E01 + E10 (rows / columns s, t of the pair both become
+    the value at e_s + e_t, computed from the multi-affine table)."""
+    vp, up = sym_pairs(uni)
+    if not vp and not up:
+        return tabs
+    out = {}
+    for key, t in tabs.items():
+        new = []
+        for g in t:
+            g = [list(r) for r in g]
+            for s1, s2 in vp:
+                both = [_plus(a, b, z) for a, b, z in zip(g[s1], g[s2], g[0])]
+                g[s1], g[s2] = both, list(both)
+            for t1, t2 in up:
+                if len(g[0]) > t2:
+                    for r in g:
+                        r[t1] = r[t2] = _plus(r[t1], r[t2], r[0])
+            new.append(g)
+        out[key] = new
+    return out
+
+
+def outside_diff(full, want, gi, gj, arity):
+    """first entry in a row / column of ANOTHER sub-function where the block differs from its
+    restriction (there the restriction of a purely linear / bilinear form vanishes)"""
+    si, sj = set(gi) | {0}, set(gj) | {0}
+    for key in sorted(set(full) | set(want), key=repr):
+        a, b = full.get(key), want.get(key)
+        for e, g in enumerate(a if a is not None else b):
+            for r, row in enumerate(g):
+                for c, x in enumerate(row):
+                    if r in si and (arity == 1 or c in sj):
+                        continue
+                    xa = Cx(0) if a is None else a[e][r][c]
+                    xb = Cx(0) if b is None else b[e][r][c]
+                    if xa is None or xb is None or base.close(xa, xb):
+                        continue
+                    return (key, e, r, c, str(xa), str(xb))
+    return None
 
 
 def add_keyed(a, b):
@@ -198,6 +294,12 @@ def check_record(w, rec, corrupt=False):
     def viol(fp, what, label):
         findings.append(Finding("violation", fp, what, {"label": label}))
 
+    def sfx(replaced):
+        return "" if replaced else ":replace_argument=False"
+
+    def opt(replaced):
+        return "" if replaced else ", replace_argument=False"
+
     def block_table(blk, i, j, replaced, label):
         """full-size table of one returned block, or None after reporting"""
         jj = j if arity == 2 else None
@@ -207,7 +309,7 @@ def check_record(w, rec, corrupt=False):
         try:
             loc = assemble(blk, w.envs, bs)
         except ForeignArgument as e:
-            viol(f"{PID}:{lin}:{kind}:block-contains-foreign-argument" + ("" if replaced else ":replace_argument=False"),
+            viol(f"{PID}:{lin}:{kind}:block-contains-foreign-argument" + sfx(replaced),
                  f"{label} of {text}: block ({i}, {jj}) depends on an argument outside sub-spaces ({i}, {jj}): {e}", label)
             return None
         cnt("evaluations", sum(len(g) * len(g[0]) for t in loc.values() for g in t))
@@ -223,26 +325,28 @@ def check_record(w, rec, corrupt=False):
         if full is None:
             return
         jj = j if arity == 2 else None
-        d1 = keyed_diff(full, predicted(i, j), nenv, nr, nc)
+        full = on_symmetric_values(full, uni)
+        d1 = keyed_diff(full, on_symmetric_values(predicted(i, j), uni), nenv, nr, nc)
         if d1 is not None and corrupt:
             findings.append(Finding("conformance", f"{PID}:conformance:block", f"{label} of {text}: block ({i}, {jj}) differs from the model's at {d1}", {"label": label}))
             return
         gi, gj = part_slots(w, 0, i), (part_slots(w, 1, j) if arity == 2 else [])
-        d2 = keyed_diff(full, restrict(Freal, gi, gj, nr, nc), nenv, nr, nc)
+        want = on_symmetric_values(restrict(Freal, gi, gj, nr, nc), uni)
+        d2 = keyed_diff(full, want, nenv, nr, nc)
         cnt("block_comparisons")
         if d2 is not None:
-            viol(f"{PID}:{lin}:{kind}:block-is-not-the-restriction" + ("" if replaced else ":replace_argument=False"),
-                 f"{label} of {text}: block ({i}, {jj}) is not the restriction of the form to sub-spaces ({i}, {jj}) at (key, env, row, col, real, required) = {d2}", label)
+            d3 = outside_diff(full, want, gi, gj, arity)
+            if d3 is not None:
+                viol(f"{PID}:{lin}:{kind}:block-depends-on-another-sub-function" + sfx(replaced),
+                     f"{label} of {text}: block ({i}, {jj}) depends on a component of another sub-function at (key, env, row, col, real, required) = {d3}", label)
+            else:
+                viol(f"{PID}:{lin}:{kind}:block-is-not-the-restriction" + sfx(replaced),
+                     f"{label} of {text}: block ({i}, {jj}) is not the restriction of the form to sub-spaces ({i}, {jj}) at (key, env, row, col, real, required) = {d2}", label)
         elif d1 is not None:
             findings.append(Finding("conformance", f"{PID}:conformance:block", f"{label} of {text}: block ({i}, {jj}) differs from the model's at {d1}", {"label": label}))
 
     # ---- extract_blocks(form): the whole structure ------------------------------------------------
-    for replaced in (True, False):
-        label = "extract_blocks(F)" if replaced else "extract_blocks(F, replace_argument=False)"
-        status, R = call(lambda: extract_blocks(F, replace_argument=replaced))
-        if status == "raise":
-            viol(f"{PID}:{lin}:{kind}:refuses:{type(R).__name__}", f"{label} of {text} raised {type(R).__name__}: {R}", label)
-            continue
+    def judge_whole(R, label, replaced):
         sreal = structure(R)
         want = ("matrix", rows, cols) if cols > 0 else ("vector", rows)
         grid = None
@@ -258,10 +362,10 @@ def check_record(w, rec, corrupt=False):
         elif uni.mixed == "element" and arity == 2 and sreal == ("matrix", rows, rows) and rows != cols:
             viol(f"{PID}:bilinear-mixedelement-block-columns-counted-from-test-space",
                  f"{label} of {text} (test space with {rows}, trial space with {cols} sub-elements) returned a {rows}x{rows} tuple instead of {rows}x{cols} blocks", label)
-            continue
+            return
         else:
             viol(f"{PID}:{lin}:{kind}:structure", f"{label} of {text} returned structure {sreal}, the form has {want}", label)
-            continue
+            return
         total = {}
         ok = True
         for i in range(rows):
@@ -274,46 +378,71 @@ def check_record(w, rec, corrupt=False):
                 total = add_keyed(total, full)
         if ok:
             cnt("partition_sums")
-            d = keyed_diff(total, Freal, nenv, nr, nc)
+            d = keyed_diff(on_symmetric_values(total, uni), on_symmetric_values(Freal, uni), nenv, nr, nc)
             if d is not None:
-                viol(f"{PID}:{lin}:{kind}:blocks-do-not-sum-to-the-form" + ("" if replaced else ":replace_argument=False"),
+                viol(f"{PID}:{lin}:{kind}:blocks-do-not-sum-to-the-form" + sfx(replaced),
                      f"{label} of {text}: the zero-padded blocks do not sum to the assembled form at (key, env, row, col, sum, form) = {d}", label)
+
+    def same_result(A, B):
+        """two results of extract_blocks are the same nested tuples of equal forms"""
+        if isinstance(A, (tuple, list)) or isinstance(B, (tuple, list)):
+            return isinstance(A, (tuple, list)) and isinstance(B, (tuple, list)) and len(A) == len(B) and all(same_result(a, b) for a, b in zip(A, B))
+        return _same(A, B)
+
+    for replaced in (True, False):
+        label = f"extract_blocks(F{opt(replaced)})"
+        status, R = call(lambda: extract_blocks(F, replace_argument=replaced))
+        if status == "raise":
+            viol(f"{PID}:{lin}:{kind}:refuses:{type(R).__name__}", f"{label} of {text} raised {type(R).__name__}: {R}", label)
+            continue
+        judge_whole(R, label, replaced)
+        # the documented option `arity` (set to the arity of the form): the same answer, or one that is judged as well
+        label = f"extract_blocks(F, arity={arity}{opt(replaced)})"
+        status, R2 = call(lambda: extract_blocks(F, arity=arity, replace_argument=replaced))
+        if status == "raise":
+            viol(f"{PID}:{lin}:{kind}:refuses-explicit-arity:{type(R2).__name__}", f"{label} of {text} raised {type(R2).__name__}: {R2}", label)
+        elif same_result(R2, R):
+            cnt("explicit_arity_same_result")
+        else:
+            cnt("explicit_arity_other_result")
+            judge_whole(R2, label, replaced)
     # ---- single blocks and rows ---------------------------------------------------------------------
-    for i in range(rows):
-        if arity == 2:
-            for j in range(cols):
-                label = f"extract_blocks(F, {i}, {j})"
-                status, B = call(lambda: extract_blocks(F, i, j))
+    for replaced in (True, False):
+        for i in range(rows):
+            if arity == 2:
+                for j in range(cols):
+                    label = f"extract_blocks(F, {i}, {j}{opt(replaced)})"
+                    status, B = call(lambda: extract_blocks(F, i, j, replace_argument=replaced))
+                    if status == "raise":
+                        viol(f"{PID}:{lin}:{kind}:single-block-refuses:{type(B).__name__}", f"{label} of {text} raised {type(B).__name__}: {B}", label)
+                        continue
+                    compare_block(block_table(B, i, j, replaced, label), i, j, label, replaced)
+                label = f"extract_blocks(F, {i}{opt(replaced)})"
+                status, B = call(lambda: extract_blocks(F, i, replace_argument=replaced))
+                if status == "raise":
+                    viol(f"{PID}:{lin}:{kind}:row-request-refuses:{type(B).__name__}", f"{label} of {text} raised {type(B).__name__}: {B}", label)
+                elif isinstance(B, (tuple, list)) and len(B) == cols:
+                    for j in range(cols):
+                        compare_block(block_table(B[j], i, j, replaced, label), i, j, label, replaced)
+                elif cols == 1 and not isinstance(B, (tuple, list)) and not is_empty(B):
+                    # a row of one block, returned as the block itself
+                    compare_block(block_table(B, i, 0, replaced, label), i, 0, label, replaced)
+                else:
+                    rowtab = restrict(Freal, part_slots(w, 0, i), list(range(1, nc + 1)), nr, nc)
+                    nonzero = keyed_diff(rowtab, {}, nenv, nr, nc) is not None
+                    if uni.mixed == "element" and is_empty(B):
+                        if nonzero:
+                            viol(f"{PID}:bilinear-mixedelement-row-request-returns-empty-form",
+                                 f"{label} of {text} returned an empty form instead of row {i} of the blocks (documented: 'If j is None, return the ith row')", label)
+                    else:
+                        viol(f"{PID}:{lin}:{kind}:row-request-structure", f"{label} of {text} returned {type(B).__name__}, expected the {cols} blocks of row {i}", label)
+            else:
+                label = f"extract_blocks(F, {i}{opt(replaced)})"
+                status, B = call(lambda: extract_blocks(F, i, replace_argument=replaced))
                 if status == "raise":
                     viol(f"{PID}:{lin}:{kind}:single-block-refuses:{type(B).__name__}", f"{label} of {text} raised {type(B).__name__}: {B}", label)
                     continue
-                compare_block(block_table(B, i, j, True, label), i, j, label)
-            label = f"extract_blocks(F, {i})"
-            status, B = call(lambda: extract_blocks(F, i))
-            if status == "raise":
-                viol(f"{PID}:{lin}:{kind}:row-request-refuses:{type(B).__name__}", f"{label} of {text} raised {type(B).__name__}: {B}", label)
-            elif isinstance(B, (tuple, list)) and len(B) == cols:
-                for j in range(cols):
-                    compare_block(block_table(B[j], i, j, True, label), i, j, label)
-            elif cols == 1 and not isinstance(B, (tuple, list)) and not is_empty(B):
-                # a row of one block, returned as the block itself
-                compare_block(block_table(B, i, 0, True, label), i, 0, label)
-            else:
-                rowtab = restrict(Freal, part_slots(w, 0, i), list(range(1, nc + 1)), nr, nc)
-                nonzero = keyed_diff(rowtab, {}, nenv, nr, nc) is not None
-                if uni.mixed == "element" and is_empty(B):
-                    if nonzero:
-                        viol(f"{PID}:bilinear-mixedelement-row-request-returns-empty-form",
-                             f"{label} of {text} returned an empty form instead of row {i} of the blocks (documented: 'If j is None, return the ith row')", label)
-                else:
-                    viol(f"{PID}:{lin}:{kind}:row-request-structure", f"{label} of {text} returned {type(B).__name__}, expected the {cols} blocks of row {i}", label)
-        else:
-            label = f"extract_blocks(F, {i})"
-            status, B = call(lambda: extract_blocks(F, i))
-            if status == "raise":
-                viol(f"{PID}:{lin}:{kind}:single-block-refuses:{type(B).__name__}", f"{label} of {text} raised {type(B).__name__}: {B}", label)
-                continue
-            compare_block(block_table(B, i, 0, True, label), i, 0, label)
+                compare_block(block_table(B, i, 0, replaced, label), i, 0, label, replaced)
     viol_labels = {f.extra.get("label") for f in findings if f.kind == "violation"}
     findings = [f for f in findings if not (f.kind == "conformance" and f.extra.get("label") in viol_labels)]
     return findings, st
@@ -355,6 +484,10 @@ def run(ctx, args):
     if not only:
         f = ("f", ())
         base.as_coded_counterexample(ctx, Uni("me-ascoded", "element", [(), ()], None, [f], {"mul"}, 1, ("extract_blocks",), exclude=("two", "w_v")), "BlocksShape", pid=PID)
+        # the model of FormSplitter.argument (replace_argument=False) with the offset advanced by the REFERENCE value size:
+        # the block after a symmetric tensor sub-element takes a component of the tensor
+        base.as_coded_counterexample(ctx, Uni("me-refoffset", "element", [(2, 2), ()], None, [f], {"mul"}, 1, ("extract_blocks",), vkinds=["sym", "P"],
+                                              exclude=("two", "w_v", "v", "v_0", "v_0r0", "v_0r1", "v[0]", "v[1]", "v[2]")), "SplitterKeepsOwn", pid=PID, ascoded=False, offset_by="reference")
     base.run_universes(ctx, __name__, unis, pid=PID)
 
 
